@@ -389,3 +389,66 @@ Qed.
 (* every datum the wire decoder accepts is a binary_float: quantifying over B loses nothing *)
 Lemma valid_is_B (f : sf) : fvalid f = true -> exists b : B, f = b2sf b.
 Proof. intro H. exists (@SF2B prec emax f H). symmetry. apply B2SF_SF2B. Qed.
+
+(* ------------------------------------------------------- float(int), sleep(int) *)
+
+Notation bnorm := (@BinarySingleNaN.binary_normalize prec emax Hprec Hmax mode_NE).
+
+Lemma F2R_int (z : Z) : F2R (Float radix2 z 0) = IZR z.
+Proof. unfold F2R. simpl. ring. Qed.
+
+(* float(z) is the correctly rounded value of z; OverflowError exactly when that is not
+   below 2^1024 *)
+Theorem z2f_correct (z : Z) :
+  (in_range (rnd (IZR z)) ->
+     exists b : B, z2f z = Some (b2sf b) /\ fin b = true /\ b2r b = rnd (IZR z)) /\
+  (~ in_range (rnd (IZR z)) -> z2f z = None).
+Proof.
+  generalize (binary_normalize_correct prec emax Hprec Hmax mode_NE z 0 false).
+  rewrite F2R_int. simpl round_mode. cbv zeta.
+  assert (Eqv : SpecFloat.binary_normalize prec emax z 0 false = b2sf (bnorm z 0%Z false))
+    by apply binary_normalize_equiv.
+  split.
+  - intro Hr. unfold in_range in Hr. rewrite Rlt_bool_true in H by exact Hr.
+    destruct H as (Hv & Hf & _).
+    exists (bnorm z 0%Z false). split; [|split; [exact Hf|exact Hv]].
+    unfold z2f.
+    destruct (1024 <=? Z.log2 (Z.abs z))%Z eqn:L.
+    + exfalso. apply Z.leb_le in L.
+      assert (Hz : (0 < Z.abs z)%Z).
+      { destruct (Z.eq_dec (Z.abs z) 0) as [E|E]; [rewrite E in L; simpl in L; lia|]. pose proof (Z.abs_nonneg z). lia. }
+      assert (Hp : (2 ^ 1024 <= Z.abs z)%Z).
+      { apply Z.le_trans with (2 ^ Z.log2 (Z.abs z))%Z; [apply Z.pow_le_mono_r; lia|].
+        apply (Z.log2_spec _ Hz). }
+      assert (HR : bpow radix2 1024 <= Rabs (IZR z)).
+      { rewrite <- abs_IZR. rewrite <- (IZR_Zpower radix2) by lia. apply IZR_le. exact Hp. }
+      assert (HG : bpow radix2 1024 <= Rabs (rnd (IZR z))).
+      { apply abs_round_ge_generic; try typeclasses eauto; [|exact HR].
+        apply generic_format_bpow. unfold fexp64, SpecFloat.fexp, SpecFloat.emin, prec, emax. lia. }
+      exact (Rlt_not_le _ _ Hr HG).
+    + rewrite Eqv. destruct (bnorm z 0%Z false); try reflexivity; discriminate.
+  - intro Hr. unfold in_range in Hr. rewrite Rlt_bool_false in H by (apply Rnot_lt_le; exact Hr).
+    unfold z2f. destruct (1024 <=? Z.log2 (Z.abs z))%Z; [reflexivity|].
+    rewrite Eqv, H. reflexivity.
+Qed.
+
+(* sleep(z) on an int: negatives refused, an int too large for float() raises OverflowError,
+   otherwise ONE call with rnd (rnd z / 1000) (two roundings: float(z), then the division) *)
+Theorem fsleep_int (z : Z) :
+  ((z < 0)%Z -> fsleep (NI z) = ([], FRaise EValue)) /\
+  ((0 <= z)%Z -> ~ in_range (rnd (IZR z)) -> fsleep (NI z) = ([], FRaise EOverflow)) /\
+  ((0 <= z)%Z -> in_range (rnd (IZR z)) -> exists s : B,
+      fsleep (NI z) = ([b2sf s], FOk tt) /\ fin s = true /\ b2r s = rnd (rnd (IZR z) / 1000)).
+Proof.
+  unfold fsleep. cbn [of_num pv_ltz as_float]. split; [|split].
+  - intro H. apply Z.ltb_lt in H. now rewrite H.
+  - intros H Hr. assert (E : (z <? 0)%Z = false) by (apply Z.ltb_ge; exact H). rewrite E.
+    now rewrite (proj2 (z2f_correct z) Hr).
+  - intros H Hr. assert (E : (z <? 0)%Z = false) by (apply Z.ltb_ge; exact H). rewrite E.
+    destruct (proj1 (z2f_correct z) Hr) as (b & Hb & Fb & Vb). rewrite Hb.
+    assert (H1000 : b2r b1000 <> 0) by (rewrite b1000_val; lra).
+    assert (Rq : in_range (rnd (b2r b / b2r b1000))) by (rewrite b1000_val; apply in_range_div_1000).
+    destruct (bdiv_ok b b1000 Fb H1000 Rq) as [Ev Fv].
+    exists (bdiv b b1000). rewrite <- b1000_sf, fdiv_B. split; [reflexivity|]. split; [exact Fv|].
+    rewrite Ev, b1000_val, Vb. reflexivity.
+Qed.
